@@ -300,7 +300,19 @@ func cmdBaseline(args []string) {
 	}
 	b := &Baseline{Entries: map[string]*BaselineEntry{}}
 	var res *runResult
-	for round := 0; round < 2; round++ {
+	for k := range never {
+		noAssumeKeys[k] = true
+	}
+	for round := 0; round < 5; round++ {
+		// from the second round on, clauses that failed so far are no longer assumed after being asserted: a clause is claimed
+		// only if it discharges without resting on an unclaimed one. Rounds continue until one adds no new failure (fixpoint).
+		nFailBefore := 0
+		for k, e := range b.Entries {
+			if !e.Discharged {
+				noAssumeKeys[k] = true
+				nFailBefore++
+			}
+		}
 		var err error
 		res, err = runAll(*repo, *verif, *timeout, func(o *Obligation) bool { return true }, "")
 		if err != nil {
@@ -331,6 +343,16 @@ func cmdBaseline(args []string) {
 					e.MaxTimeS = o.TimeS
 				}
 			}
+		}
+		nFail := 0
+		for _, e := range b.Entries {
+			if !e.Discharged {
+				nFail++
+			}
+		}
+		fmt.Printf("baseline round %d: %d clauses not discharged (%d before)\n", round+1, nFail, nFailBefore)
+		if round >= 1 && nFail == nFailBefore {
+			break
 		}
 	}
 	for k, e := range res.genErr {
@@ -402,6 +424,11 @@ func cmdCheck(args []string) {
 	if err != nil {
 		fmt.Println("ERROR cannot read baseline:", err)
 		os.Exit(2)
+	}
+	for k, e := range base.Entries {
+		if !e.Discharged {
+			noAssumeKeys[k] = true // unclaimed clauses are asserted (thorough tier) but never assumed
+		}
 	}
 	findings, err := loadFindings(filepath.Join(*verif, "known_findings.txt"))
 	if err != nil {
